@@ -6,21 +6,21 @@ sys.path.insert(0, HERE)
 import props
 
 LEVEL = {
- 'C01': ("Verus discharges, for all inputs and all counts, the exact-consumption contracts of every read_* function and VarUint::read_from on the verbatim-extracted bodies (decode fidelity, count == length, witness stripping: the txid pre-image is the witness-stripped wire form); Kani proves CompactSize decoding over all 2^72 prefixes and the 80-byte header / 36-byte outpoint round trips over their full domains. PARTIAL: the CSV text rendering and row emission are unchecked.", "4 C01"),
- 'C02': ("Verus proves on the real BlockchainParser::start/on_start/on_block/on_complete bodies that for every start s and every tip/--end M the callback observes on_start(s), exactly the heights s..=M in ascending order once each, and on_complete(last); an Err never reaches on_complete. The clamp M = min(end, tip) and the index trimming in ChainIndex::new are assumed.", "4 C02"),
+ 'C01': ("Verus discharges, for all inputs and all counts, the exact-consumption contracts of every read_* function and VarUint::read_from on the verbatim-extracted bodies (decode fidelity, count == length, witness stripping: the txid pre-image is the witness-stripped wire form); Kani proves CompactSize decoding over all 2^72 prefixes and the 80-byte header / 36-byte outpoint round trips over their full domains. Verus also proves to_bytes() of every structure == its wire form and that double_sha256 hashes exactly those bytes (unit proto), and that CsvDump::on_block appends exactly one row per block / transaction / input / output, in order, to the right file, the totals being the number of rows written (unit csvdump). PARTIAL: the TEXT of a single row (format!/Display/arr_to_hex) is an uninterpreted function of the item; it is replayed by the native lane only.", "4 C01"),
+ 'C02': ("Verus proves on the real BlockchainParser::start/on_start/on_block/on_complete bodies that for every start s and every tip/--end M the callback observes on_start(s), exactly the heights s..=M in ascending order once each, and on_complete(last); an Err never reaches on_complete. ChainIndex::new is under contract too (unit chainindex): max_height == min(--end, tip), the trimmed index keeps exactly start-1..=max_height, and a lemma derives the driver's precondition from it.", "4 C02"),
  'C03': ("Verus proves read_varint == Bitcoin Core's VarInt decoder, BlockIndexRecord::from == the six varints in Core's order, get_block_index == select(all LevelDB pairs) (only 'b' keys), BlkFile::read_block reads the size prefix at offset-4 and the block at offset, ChainStorage::get_block uses exactly the record's file number and offset. Directory scan and LevelDB are trusted.", "4 C03"),
  'C04': ("Verus proves what the selection does (get_block_index == select) and that header-only records are never selected; the property's top-level obligation (only active-chain records are selected) is FALSE for this code: recorded KNOWN FINDING with a machine-checked refutation witness. Any other failing obligation is still a violation.", "4 C04"),
  'C05': ("Verus proves, for every byte string, that eval_from_bytes / eval_from_bytes_bitcoin / p2pk_to_string / is_provable_unspendable return the reference script type and the address of the reference hash / witness program and network; the rust-bitcoin predicate templates the proof rests on are validated against the real crate by Kani over all scripts up to the template length. Address text encoders and is_multisig are trusted.", "4 C05"),
  'C06': ("Verus proves on the verbatim custom.rs bodies, for every byte string: tokenisation by Bitcoin push rules (PUSHDATA length from the bytes after the opcode), template typing, Base58Check(version || hash) address bytes, and that evaluation never yields an error; read_uint, the opcode class table and the coin version bytes are proved by Kani over their full domains. Hash / base58 primitives are uninterpreted.", "4 C06"),
- 'C07': ("Verus proves full-view postconditions of remove_unspents / insert_unspents / UnspentCsvDump::on_block: the map after a block is exactly apply_txs(map) (per tx: remove spent outpoints, then insert address-bearing outputs keyed txid||LE32(index)); nothing else changes. PARTIAL: the dump loop in on_complete is unchecked.", "4 C07"),
- 'C08': ("Verus proves Balances::on_block maintains exactly the same unspent map as C07. PARTIAL: the per-address aggregation in on_complete is outside both verifiers.", "4 C08"),
+ 'C07': ("Verus proves full-view postconditions of remove_unspents / insert_unspents / UnspentCsvDump::on_block: the map after a block is exactly apply_txs(map) (per tx: remove spent outpoints, then insert address-bearing outputs keyed txid||LE32(index)); nothing else changes. UnspentCsvDump::on_complete (unit dumps): header, then exactly one row per map entry with txid=key[0..32], index=LE32(key[32..36]), height, value, address; the text of one row is an uninterpreted function of those values.", "4 C07"),
+ 'C08': ("Verus proves Balances::on_block maintains exactly the same unspent map as C07. Balances::on_complete (unit dumps): the aggregation map holds exactly the addresses owning an unspent entry, each bound to the exact sum of its entries' values, and exactly one row per address follows the header (row text uninterpreted).", "4 C08"),
  'C09': ("Verus proves ChainStorage::verify accepts exactly (merkle ok && (genesis hash at 0 | prev-hash == indexed hash of h-1)), that get_block calls it iff --verify and propagates its error, and that an Err reaches process::exit before any further callback. utils::merkle_root is checked by bounded Kani harnesses (1..=5 leaves, stubbed hash) -- not counted as proved.", "4 C09"),
  'C11': ("Verus proves on the verbatim XorReader::{new,read,seek} bodies that an XorReader over an obfuscated stream satisfies the plain Read/Seek contract of the de-obfuscated file for every key length, offset and interleaving of seeks and reads (representation invariant absolute_pos == inner position).", "4 C11"),
  'C12': ("Verus proves read_block parses the AuxPoW section iff the coin has an activation version and header.version >= it, that read_aux_pow_extension consumes exactly coinbase tx (legacy or segwit) || hash || branch || branch || 80-byte header, and that the block hash is sha256d of the first 80 bytes only. Kani proves the per-coin thresholds.", "4 C12"),
  'C14': ("Panic-freedom is what a deductive verifier checks implicitly: every panic!/unwrap/expect/unreachable!/index/slice/arithmetic site in the extracted script-evaluation and transaction-parsing functions is a discharged obligation for ALL byte strings; plus evaluation never yields ScriptPattern::Error and scriptSig/witness bytes are only length-delimited.", "4 C14"),
  'C15': ("Kani proves get_base_reward for every height below 64 halvings and the is_coinbase predicate over its full domain; get_mean is checked by bounded harnesses (length <= 3, all u32 values) which found the u32-sum overflow (fixed). Verus proves the accumulation in SimpleStats::on_block / process_tx_pattern where units exist. Report rendering is unchecked.", "4 C15"),
- 'C16': ("Verus proves the payload value the opreturn callback prints: for OP_RETURN + exactly one push (direct or PUSHDATA1/2/4) the Bitcoin evaluator yields utf8(pushed data) or \"\" and the fork-coin evaluator lossy_utf8(pushed data). The printing loop itself (continue inside for, println!) is unchecked.", "4 C16"),
- 'C17': ("Verus proves the close rule on the real ChainStorage::get_block / BlkFile::{open,close} bodies (file closed once height >= its per-file maximum, lazily reopened, no other file's state changes) and the inductive step lemma that every open file still holds a block of a height yet to come. The per-file maxima computed in ChainIndex::new are assumed.", "4 C17"),
+ 'C16': ("Verus proves the payload value the opreturn callback prints: for OP_RETURN + exactly one push (direct or PUSHDATA1/2/4) the Bitcoin evaluator yields utf8(pushed data) or \"\" and the fork-coin evaluator lossy_utf8(pushed data). OpReturn::on_block (unit opreturn): exactly one line per OP_RETURN output with non-empty payload text, in transaction/output order, carrying height, txid and that payload; stdout is an explicit ghost log, the text of a line an uninterpreted function of its arguments.", "4 C16"),
+ 'C17': ("Verus proves the close rule on the real ChainStorage::get_block / BlkFile::{open,close} bodies (file closed once height >= its per-file maximum, lazily reopened, no other file's state changes) and the inductive step lemma that every open file still holds a block of a height yet to come. The per-file maxima computed in ChainIndex::new are proved in unit chainindex.", "4 C17"),
 }
 NA = {
  'C10': "quantifies over OS fault sequences, crash points and process exit status; no function contract within reach of Verus/Kani expresses it (on_complete functions: format!/fs/map iteration; see DESIGN.md section 7)",
